@@ -215,6 +215,9 @@ func oracle(c *harness.C, k cell, o *out, rp replay) bool {
 			clause = "honest-runs-complete (synchronisation inside " + clause + ")"
 			sig = strings.ToLower(syncSlice) + "-session-synchronisation-" + sig
 		}
+		if mapSliceProp != "" {
+			sig = strings.ToLower(mapSliceProp) + "-membership-" + sig
+		}
 		c.Violation(clause, sig+":"+cls, k.id()+": "+detail, rp)
 	}
 	nodeSess := map[string][]s.Rec{}
@@ -395,9 +398,23 @@ var syncSlice = func() string {
 	return ""
 }()
 
+// mapslice: some cell families of this check, run for another property whose guarantee rests on the
+// orchestrator's treatment of the membership map (two nodes of one party in one session would give
+// a backend two broadcasts per (party, round): C02/C03; a point-to-point message that leaves the
+// session: C04). VERIF_CELLS lists the cell-name prefixes.
+var mapSliceProp, mapSliceCells = func() (string, []string) {
+	if os.Getenv("VERIF_FAMILY") == "mapslice" {
+		return os.Getenv("VERIF_PROP"), strings.Split(os.Getenv("VERIF_CELLS"), ",")
+	}
+	return "", nil
+}()
+
 func gen(c *harness.C) []harness.Case {
 	if syncSlice != "" {
 		c.Property = syncSlice
+	}
+	if mapSliceProp != "" {
+		c.Property = mapSliceProp
 	}
 	c.Note("rule", "cells = membership map (identity / injective order-preserving and order-reversing with small and 16-bit boundary values / non-injective with replicas) x participating node set x operation x mode; each cell runs the full real stack with logging backend S under the default schedule and all <=d-deviation schedules; replica cells are repeated 16 times because Go map iteration order inside computeMembership cannot be owned; distinct_nontrivial = distinct (cell, class trace)")
 	if os.Getenv("VERIF_FAMILY") == "threads" {
@@ -433,6 +450,12 @@ func gen(c *harness.C) []harness.Case {
 	add("dup-high", map[uint16]uint16{1: 21, 2: 22, 3: 23, 4: 23}, [][]uint16{{1, 3, 4}, {2, 3, 4}, {1, 2, 3, 4}}, all)
 	add("dup-high-boundary", map[uint16]uint16{1: 2, 2: 3, 3: 65535, 4: 65535}, [][]uint16{{1, 2, 3, 4}}, all)
 	add("dup-only", map[uint16]uint16{1: 7, 2: 7, 3: 8}, [][]uint16{{1, 2}}, all)
+	// one of the two replicas is node 0; the replicas are not neighbours in node order; the
+	// duplicated party is party 0
+	add("dup-node-zero", map[uint16]uint16{0: 7, 1: 1, 5: 7}, [][]uint16{{0, 1, 5}}, all)
+	add("dup-node-zero-low", map[uint16]uint16{0: 7, 1: 7, 2: 8}, [][]uint16{{0, 1, 2}}, all)
+	add("dup-apart", map[uint16]uint16{1: 1, 2: 3, 3: 2, 4: 3}, [][]uint16{{1, 2, 3, 4}}, all)
+	add("dup-party-zero", map[uint16]uint16{1: 0, 2: 0, 3: 5}, [][]uint16{{1, 2, 3}}, all)
 	// duplicate only among the signers (the key generation is fine)
 	add("dup-signers-high", map[uint16]uint16{1: 21, 2: 22, 3: 23, 4: 23}, [][]uint16{{1, 2, 3}}, func(p []uint16) []uint16 { return []uint16{2, 3, 4} })
 	// replicas whose party id collides with another node id
@@ -459,6 +482,18 @@ func gen(c *harness.C) []harness.Case {
 		add("boundaryrev3", map[uint16]uint16{0: 65535, 1: 256, 65535: 0}, [][]uint16{{0, 1, 65535}}, all)
 		rep3 := map[uint16]uint16{1: 5, 2: 5, 3: 6, 4: 6}
 		add("tworeplicapairs", rep3, [][]uint16{{1, 3}, {2, 4}, {1, 4}, {1, 2}}, all)
+	}
+	if mapSliceProp != "" {
+		var keep []cell
+		for _, k := range cells {
+			for _, pre := range mapSliceCells {
+				if pre != "" && strings.HasPrefix(k.Name, pre) {
+					keep = append(keep, k)
+					break
+				}
+			}
+		}
+		cells = keep
 	}
 	var cases []harness.Case
 	for _, k := range cells {
